@@ -1,6 +1,7 @@
 """Shared runner for the per-property checks (bounded symbolic runs of Go harness
 functions, candidate confirmation by solver + native replay, evidence)."""
 import hashlib
+import re
 import json
 import multiprocessing as mp
 import os
@@ -64,7 +65,8 @@ def _tmpl_str(parts):
             out += {'digit': 'D', 'digit19': 'N', 'hex': 'H', 'ws': '_', 'sign': 'S'}[p[1]] * p[0]
         else:
             out += bytes(p).decode('latin1')
-    return out
+    # long runs of one character are written c{n}
+    return re.sub(r'(.)\1{11,}', lambda m: '%s{%d}' % (m.group(1), len(m.group(0))), out)
 
 
 def _maskstr(m):
@@ -199,6 +201,7 @@ def _worker(job):
             gl = Glue(ses)
             ex.hooks[FP + '.vAssertScanValue'] = gl.h_assert_scan
             ex.hooks[FP + '.vAssertShift'] = gl.h_assert_shift
+            ex.hooks[FP + '.vAssertSetValue'] = gl.h_assert_set
         if job.opts.get('bv_only'):
             ex.solver.use_lia = False
         if job.opts.get('slowpath'):
